@@ -33,7 +33,7 @@ def observe():
     obs: List[Ob] = []
     mnems = [(m, m) for m in BRANCHES + NON_BRANCH] + [("other", None)]
     for mname, mval in mnems:
-        for opcat in ("hex", "hex0x", "star", "none", "two"):
+        for opcat in ("hex", "hex0x", "star", "none", "two", "name"):
             for lo0x in (False, True):
                 for hi0x in (False, True):
                     if (mname not in ("call", "jmp", "jne", "mov", "other")) and (lo0x or hi0x or opcat in ("none", "two")):
@@ -52,6 +52,10 @@ def observe():
                             ops = [StarOperand("t")]
                         elif opcat == "two":
                             ops = [HexStr("t", False), Name("op2")]
+                        elif opcat == "name":
+                            # an operand that is neither hexadecimal nor an indirection (a register / symbol of another syntax):
+                            # whatever the observer makes of it -- unchanged, or a loud error -- the instruction is never dropped
+                            ops = [Name("sym")]
                         else:
                             ops = []
                         inst = J.gd.Instruction(addr=Name("a"), mnemonic=mn, operands=ops)
@@ -61,7 +65,9 @@ def observe():
                     for i, p in enumerate(run.paths):
                         base = f"observe_instruction:{sid}:p{i}"
                         if p.kind != "ret":
-                            obs.append(simple_ob(base + ":EXC", VO, "EXC", "no exception", False, PKEEP + ["C09"], detail=repr(p.value), witness=sid))
+                            loud = opcat == "name" and isinstance(p.value, ValueError)
+                            obs.append(simple_ob(base + ":EXC", VO, "EXC", "no exception (a branch operand that is not a number may be "
+                                                 "rejected with ValueError)", loud, PKEEP + ["C09"], detail=repr(p.value), witness=sid))
                             continue
                         res, inst = p.value
                         if res is None or not isinstance(res, J.gd.Instruction):
